@@ -321,6 +321,16 @@ func VH_C02_Union()      { vhC01[vgUnion](vhUnionCfg) }
 func VH_C02_LeakPartial()    { vhC01[vgLeakPartial](vhNoElide) }
 func VH_C02_LeakPartialOpt() { vhC01[vgLeakPartialOpt](vhNoElide) }
 
+// captures inside the operand of a lookahead group are never visible
+type vgLookaheadCapture struct {
+	G string   `(?! @A B B )`
+	P string   `(?= @( A | C ) )?`
+	N string   `@A B`
+	R []string `@( A | B | C )*`
+}
+
+func VH_C02_LookaheadCapture() { vhC01[vgLookaheadCapture](vhNoElide) }
+
 func VH_C02_Canary() { VH_C01_Canary() }
 
 func VH_C06_Seq()      { vhC06[vgSeq](vhNoElide) }
